@@ -1,586 +1,1 @@
-/-
-GENERATED by vextract from the Go source (object_impl.go, anytype.go, list_impl.go) — do not edit.
-
-A translation of the object operations, of `parseVal` and of `native` into Lean, statement by
-statement (symbolic execution of the Go function bodies; the restructuring rules are listed at the
-top of vextract/objgen.go).  Lemmas/ObjectGenEq.lean proves each definition equal to the
-hand-written model (Model/ObjectOps.lean, Model/Normalize.lean), so a change of the Go source that
-alters the behaviour breaks the build.
--/
-import Anytype.Model.ObjectOps
-set_option linter.unusedVariables false
-namespace Anytype.Generated
-open Anytype
-
-/-- the loop of `Set` at object_impl.go:192 -/
-def setLoopGen (h1 : Heap) (a : Nat) (l : List (Option Str × GoVal)) : Heap × Out Unit :=
-  match l with
-  | [] => (h1, .ok ())
-  | (kq, g) :: rest =>
-    match kq with
-    | none => (h1, .panic .keyNotString)
-    | some name =>
-      match parseVal h1 g with
-      | (h2, .panic p) => (h2, .panic p)
-      | (h2, .ok v) => setLoopGen (h2.setFields a (setKV (h2.fields a) name v)) a rest
-
-/-- `(*object).Set` (object_impl.go:187) -/
-def setGen (h : Heap) (a : Nat) (pairs : O.Pairs) (odd : Bool) : Heap × Out Ref :=
-  if odd then (h, .panic .oddPairs)
-  else
-    match setLoopGen h a pairs with
-    | (h3, .panic p1) => (h3, .panic p1)
-    | (h3, .ok _) => (h3, .ok (h3.egoRef a))
-
-/-- `NewObject` (object_impl.go:37) -/
-def newGen (h : Heap) (pairs : O.Pairs) (odd : Bool) : Heap × Out Ref :=
-  let ego := h.length
-  match setGen (h ++ [Cell.obj [] 0]) ego pairs odd with
-  | (h1, .panic p) => (h1, .panic p)
-  | (h1, .ok _) => (h1, .ok ⟨ego, 0⟩)
-
-/-- the loop of `Unset` at object_impl.go:203 -/
-def unsetLoopGen (h1 : Heap) (a : Nat) (l : List Str) : Heap :=
-  match l with
-  | [] => h1
-  | key :: rest =>
-    unsetLoopGen (h1.setFields a (delKV (h1.fields a) key)) a rest
-
-/-- `(*object).Unset` (object_impl.go:202) -/
-def unsetGen (h : Heap) (a : Nat) (keys : List Str) : Heap × Out Ref :=
-  let h2 := unsetLoopGen h a keys
-  (h2, .ok (h2.egoRef a))
-
-/-- `(*object).Clear` (object_impl.go:209) -/
-def clearGen (h : Heap) (a : Nat) : Heap × Out Ref :=
-  (h.setFields a [], .ok ((h.setFields a []).egoRef a))
-
-/-- `(*object).Get` (object_impl.go:214) -/
-def getGen (h : Heap) (a : Nat) (key : Str) : Out Val :=
-  match lookup (h.fields a) key with
-  | none => .panic .missingKey
-  | some field => .ok (h.getVal field)
-
-/-- `(*object).GetObject` (object_impl.go:223) -/
-def getObjectGen (h : Heap) (a : Nat) (key : Str) : Out Val :=
-  match getGen h a key with
-  | .panic p => .panic p
-  | .ok o =>
-    if o.kind == .object then .ok o
-    else .panic .notKind
-
-/-- `(*object).GetList` (object_impl.go:231) -/
-def getListGen (h : Heap) (a : Nat) (key : Str) : Out Val :=
-  match getGen h a key with
-  | .panic p => .panic p
-  | .ok o =>
-    if o.kind == .list then .ok o
-    else .panic .notKind
-
-/-- `(*object).GetString` (object_impl.go:239) -/
-def getStringGen (h : Heap) (a : Nat) (key : Str) : Out Val :=
-  match getGen h a key with
-  | .panic p => .panic p
-  | .ok o =>
-    if o.kind == .string then .ok o
-    else .panic .notKind
-
-/-- `(*object).GetBool` (object_impl.go:247) -/
-def getBoolGen (h : Heap) (a : Nat) (key : Str) : Out Val :=
-  match getGen h a key with
-  | .panic p => .panic p
-  | .ok o =>
-    if o.kind == .bool then .ok o
-    else .panic .notKind
-
-/-- `(*object).GetInt` (object_impl.go:255) -/
-def getIntGen (h : Heap) (a : Nat) (key : Str) : Out Val :=
-  match getGen h a key with
-  | .panic p => .panic p
-  | .ok o =>
-    if o.kind == .int then .ok o
-    else .panic .notKind
-
-/-- `(*object).GetFloat` (object_impl.go:263) -/
-def getFloatGen (h : Heap) (a : Nat) (key : Str) : Out Val :=
-  match getGen h a key with
-  | .panic p => .panic p
-  | .ok o =>
-    if o.kind == .float then .ok o
-    else .panic .notKind
-
-/-- `(*object).TypeOf` (object_impl.go:271) -/
-def typeOfGen (h : Heap) (a : Nat) (key : Str) : Kind :=
-  match lookup (h.fields a) key with
-  | some (.obj _) => .object
-  | some (.list _) => .list
-  | some .nil => .nil
-  | some (.str _) => .string
-  | some (.int _) => .int
-  | some (.bool _) => .bool
-  | some (.float _) => .float
-  | none => .undefined
-
-/-- `(*object).KeyExists` (object_impl.go:383) -/
-def keyExistsGen (h : Heap) (a : Nat) (key : Str) : Bool :=
-  match lookup (h.fields a) key with
-  | none => false
-  | some _ => true
-
-/-- `(*object).Count` (object_impl.go:337) -/
-def countGen (h : Heap) (a : Nat) : Int :=
-  ((h.fields a).length : Int)
-
-/-- `(*object).Empty` (object_impl.go:341) -/
-def emptyGen (h : Heap) (a : Nat) : Bool :=
-  (countGen h a) == 0
-
-/-- the loop of `Dict` at object_impl.go:307 -/
-def dictLoopGen (h : Heap) (l : List (Str × Val)) (dict : List (Str × Val)) : List (Str × Val) :=
-  match l with
-  | [] => dict
-  | (key, value) :: rest =>
-    dictLoopGen h rest (dict ++ [(key, h.getVal value)])
-
-/-- `(*object).Dict` (object_impl.go:305) -/
-def dictGen (h : Heap) (a : Nat) : List (Str × Val) :=
-  let dict1 := dictLoopGen h (h.fields a) []
-  dict1
-
-/-- the loop of `Keys` at object_impl.go:319 -/
-def keysLoopGen (h1 : Heap) (ego : Nat) (l : List (Str × Val)) : Heap :=
-  match l with
-  | [] => h1
-  | (key, _) :: rest =>
-    keysLoopGen (h1.setItems ego (h1.items ego ++ [.str key])) ego rest
-
-/-- `(*object).Keys` (object_impl.go:317) -/
-def keysGen (h : Heap) (a : Nat) : Heap × Ref :=
-  let ego := h.length
-  let h2 := keysLoopGen (h ++ [Cell.list [] 0]) ego ((h ++ [Cell.list [] 0]).fields a)
-  (h2, ⟨ego, 0⟩)
-
-/-- the loop of `Values` at object_impl.go:327 -/
-def valuesLoopGen (h1 : Heap) (ego : Nat) (l : List (Str × Val)) : Heap :=
-  match l with
-  | [] => h1
-  | (_, value) :: rest =>
-    valuesLoopGen (h1.setItems ego (h1.items ego ++ [h1.getVal value])) ego rest
-
-/-- `(*object).Values` (object_impl.go:325) -/
-def valuesGen (h : Heap) (a : Nat) : Heap × Ref :=
-  let ego := h.length
-  let h2 := valuesLoopGen (h ++ [Cell.list [] 0]) ego ((h ++ [Cell.list [] 0]).fields a)
-  (h2, ⟨ego, 0⟩)
-
-/-- the loop of `Contains` at object_impl.go:366 -/
-def containsLoopGen (h : Heap) (value : Val) (l : List (Str × Val)) : Bool :=
-  match l with
-  | [] => false
-  | (_, item) :: rest =>
-    if L.goEq (h.getVal item) value then true
-    else containsLoopGen h value rest
-
-/-- `(*object).Contains` (object_impl.go:365) -/
-def containsGen (h : Heap) (a : Nat) (value : Val) : Bool :=
-  containsLoopGen h value (h.fields a)
-
-/-- the loop of `KeyOf` at object_impl.go:375 -/
-def keyOfLoopGen (h : Heap) (value : Val) (l : List (Str × Val)) : Out Str :=
-  match l with
-  | [] => .panic .noValue
-  | (key, item) :: rest =>
-    if L.goEq (h.getVal item) value then .ok key
-    else keyOfLoopGen h value rest
-
-/-- `(*object).KeyOf` (object_impl.go:374) -/
-def keyOfGen (h : Heap) (a : Nat) (value : Val) : Out Str :=
-  keyOfLoopGen h value (h.fields a)
-
-/-- the loop of `Pluck` at object_impl.go:359 -/
-def pluckLoopGen (h1 : Heap) (a : Nat) (ego : Nat) (l : List Str) : Heap × Out Unit :=
-  match l with
-  | [] => (h1, .ok ())
-  | key :: rest =>
-    match getGen h1 a key with
-    | .panic p => (h1, .panic p)
-    | .ok v => pluckLoopGen (h1.setFields ego (setKV (h1.fields ego) key v)) a ego rest
-
-/-- `(*object).Pluck` (object_impl.go:357) -/
-def pluckGen (h : Heap) (a : Nat) (keys : List Str) : Heap × Out Ref :=
-  let ego := h.length
-  match pluckLoopGen (h ++ [Cell.obj [] 0]) a ego keys with
-  | (h2, .panic p1) => (h2, .panic p1)
-  | (h2, .ok _) => (h2, .ok ⟨ego, 0⟩)
-
-/-- the loop of `Merge` at object_impl.go:389 -/
-def mergeLoopGen (h2 : Heap) (result : Ref) (l : List (Str × Val)) : Heap :=
-  match l with
-  | [] => h2
-  | (key, item) :: rest =>
-    mergeLoopGen (h2.setFields result.addr (setKV (h2.fields result.addr) key (h2.getVal item))) result rest
-
-/-- `(*object).Merge` (object_impl.go:349) -/
-def mergeGen (h : Heap) (a : Nat) (another : Nat) : Option (Heap × Ref) :=
-  match O.clone h (.obj ⟨a, 0⟩) with
-  | some (h1, .obj result) =>
-    let h3 := mergeLoopGen h1 result (h1.fields another)
-    some (h3, result)
-  | _ => none
-
-/-- the loop of `ForEach` at object_impl.go:389 -/
-def forEachLoopGen (h : Heap) (l : List (Str × Val)) (log : List (Str × Val)) : List (Str × Val) :=
-  match l with
-  | [] => log
-  | (key, item) :: rest =>
-    forEachLoopGen h rest (log ++ [(key, h.getVal item)])
-
-/-- `(*object).ForEach` (object_impl.go:388) -/
-def forEachGen (h : Heap) (a : Nat) : List (Str × Val) :=
-  let log1 := forEachLoopGen h (h.fields a) []
-  log1
-
-/-- the loop of `ForEachValue` at object_impl.go:396 -/
-def forEachValueLoopGen (h : Heap) (l : List (Str × Val)) (log : List Val) : List Val :=
-  match l with
-  | [] => log
-  | (_, item) :: rest =>
-    forEachValueLoopGen h rest (log ++ [h.getVal item])
-
-/-- `(*object).ForEachValue` (object_impl.go:395) -/
-def forEachValueGen (h : Heap) (a : Nat) : List Val :=
-  let log1 := forEachValueLoopGen h (h.fields a) []
-  log1
-
-/-- the loop of `ForEachObject` at object_impl.go:403 -/
-def forEachObjectLoopGen (h : Heap) (l : List (Str × Val)) (log : List Val) : List Val :=
-  match l with
-  | [] => log
-  | (_, item) :: rest =>
-    match L.sel h true .object item with
-    | none => forEachObjectLoopGen h rest log
-    | some val => forEachObjectLoopGen h rest (log ++ [val])
-
-/-- `(*object).ForEachObject` (object_impl.go:402) -/
-def forEachObjectGen (h : Heap) (a : Nat) : List Val :=
-  let log1 := forEachObjectLoopGen h (h.fields a) []
-  log1
-
-/-- the loop of `ForEachList` at object_impl.go:413 -/
-def forEachListLoopGen (h : Heap) (l : List (Str × Val)) (log : List Val) : List Val :=
-  match l with
-  | [] => log
-  | (_, item) :: rest =>
-    match L.sel h true .list item with
-    | none => forEachListLoopGen h rest log
-    | some val => forEachListLoopGen h rest (log ++ [val])
-
-/-- `(*object).ForEachList` (object_impl.go:412) -/
-def forEachListGen (h : Heap) (a : Nat) : List Val :=
-  let log1 := forEachListLoopGen h (h.fields a) []
-  log1
-
-/-- the loop of `ForEachString` at object_impl.go:423 -/
-def forEachStringLoopGen (h : Heap) (l : List (Str × Val)) (log : List Val) : List Val :=
-  match l with
-  | [] => log
-  | (_, item) :: rest =>
-    match L.sel h true .string item with
-    | none => forEachStringLoopGen h rest log
-    | some val => forEachStringLoopGen h rest (log ++ [val])
-
-/-- `(*object).ForEachString` (object_impl.go:422) -/
-def forEachStringGen (h : Heap) (a : Nat) : List Val :=
-  let log1 := forEachStringLoopGen h (h.fields a) []
-  log1
-
-/-- the loop of `ForEachBool` at object_impl.go:433 -/
-def forEachBoolLoopGen (h : Heap) (l : List (Str × Val)) (log : List Val) : List Val :=
-  match l with
-  | [] => log
-  | (_, item) :: rest =>
-    match L.sel h true .bool item with
-    | none => forEachBoolLoopGen h rest log
-    | some val => forEachBoolLoopGen h rest (log ++ [val])
-
-/-- `(*object).ForEachBool` (object_impl.go:432) -/
-def forEachBoolGen (h : Heap) (a : Nat) : List Val :=
-  let log1 := forEachBoolLoopGen h (h.fields a) []
-  log1
-
-/-- the loop of `ForEachInt` at object_impl.go:443 -/
-def forEachIntLoopGen (h : Heap) (l : List (Str × Val)) (log : List Val) : List Val :=
-  match l with
-  | [] => log
-  | (_, item) :: rest =>
-    match L.sel h true .int item with
-    | none => forEachIntLoopGen h rest log
-    | some val => forEachIntLoopGen h rest (log ++ [val])
-
-/-- `(*object).ForEachInt` (object_impl.go:442) -/
-def forEachIntGen (h : Heap) (a : Nat) : List Val :=
-  let log1 := forEachIntLoopGen h (h.fields a) []
-  log1
-
-/-- the loop of `ForEachFloat` at object_impl.go:453 -/
-def forEachFloatLoopGen (h : Heap) (l : List (Str × Val)) (log : List Val) : List Val :=
-  match l with
-  | [] => log
-  | (_, item) :: rest =>
-    match L.sel h true .float item with
-    | none => forEachFloatLoopGen h rest log
-    | some val => forEachFloatLoopGen h rest (log ++ [val])
-
-/-- `(*object).ForEachFloat` (object_impl.go:452) -/
-def forEachFloatGen (h : Heap) (a : Nat) : List Val :=
-  let log1 := forEachFloatLoopGen h (h.fields a) []
-  log1
-
-/-- the loop of `Map` at object_impl.go:464 -/
-def mapLoopGen (h1 : Heap) (function : Str → Val → GoVal) (ego : Nat) (l : List (Str × Val)) : Heap × Out Unit :=
-  match l with
-  | [] => (h1, .ok ())
-  | (key, item) :: rest =>
-    match parseVal h1 (function key (h1.getVal item)) with
-    | (h2, .panic p) => (h2, .panic p)
-    | (h2, .ok v) => mapLoopGen (h2.setFields ego (setKV (h2.fields ego) key v)) function ego rest
-
-/-- `(*object).Map` (object_impl.go:462) -/
-def mapGen (h : Heap) (a : Nat) (function : Str → Val → GoVal) : Heap × Out Ref :=
-  let ego := h.length
-  match mapLoopGen (h ++ [Cell.obj [] 0]) function ego ((h ++ [Cell.obj [] 0]).fields a) with
-  | (h3, .panic p1) => (h3, .panic p1)
-  | (h3, .ok _) => (h3, .ok ⟨ego, 0⟩)
-
-/-- the loop of `MapValues` at object_impl.go:472 -/
-def mapValuesLoopGen (h1 : Heap) (function : Val → GoVal) (ego : Nat) (l : List (Str × Val)) : Heap × Out Unit :=
-  match l with
-  | [] => (h1, .ok ())
-  | (key, item) :: rest =>
-    match parseVal h1 (function (h1.getVal item)) with
-    | (h2, .panic p) => (h2, .panic p)
-    | (h2, .ok v) => mapValuesLoopGen (h2.setFields ego (setKV (h2.fields ego) key v)) function ego rest
-
-/-- `(*object).MapValues` (object_impl.go:470) -/
-def mapValuesGen (h : Heap) (a : Nat) (function : Val → GoVal) : Heap × Out Ref :=
-  let ego := h.length
-  match mapValuesLoopGen (h ++ [Cell.obj [] 0]) function ego ((h ++ [Cell.obj [] 0]).fields a) with
-  | (h3, .panic p1) => (h3, .panic p1)
-  | (h3, .ok _) => (h3, .ok ⟨ego, 0⟩)
-
-/-- the loop of `MapObjects` at object_impl.go:480 -/
-def mapObjectsLoopGen (h1 : Heap) (function : Val → GoVal) (ego : Nat) (l : List (Str × Val)) : Heap × Out Unit :=
-  match l with
-  | [] => (h1, .ok ())
-  | (key, item) :: rest =>
-    match L.sel h1 false .object item with
-    | none => mapObjectsLoopGen h1 function ego rest
-    | some val =>
-      match parseVal h1 (function val) with
-      | (h2, .panic p) => (h2, .panic p)
-      | (h2, .ok v) => mapObjectsLoopGen (h2.setFields ego (setKV (h2.fields ego) key v)) function ego rest
-
-/-- `(*object).MapObjects` (object_impl.go:478) -/
-def mapObjectsGen (h : Heap) (a : Nat) (function : Val → GoVal) : Heap × Out Ref :=
-  let ego := h.length
-  match mapObjectsLoopGen (h ++ [Cell.obj [] 0]) function ego ((h ++ [Cell.obj [] 0]).fields a) with
-  | (h3, .panic p1) => (h3, .panic p1)
-  | (h3, .ok _) => (h3, .ok ⟨ego, 0⟩)
-
-/-- the loop of `MapLists` at object_impl.go:491 -/
-def mapListsLoopGen (h1 : Heap) (function : Val → GoVal) (ego : Nat) (l : List (Str × Val)) : Heap × Out Unit :=
-  match l with
-  | [] => (h1, .ok ())
-  | (key, item) :: rest =>
-    match L.sel h1 false .list item with
-    | none => mapListsLoopGen h1 function ego rest
-    | some val =>
-      match parseVal h1 (function val) with
-      | (h2, .panic p) => (h2, .panic p)
-      | (h2, .ok v) => mapListsLoopGen (h2.setFields ego (setKV (h2.fields ego) key v)) function ego rest
-
-/-- `(*object).MapLists` (object_impl.go:489) -/
-def mapListsGen (h : Heap) (a : Nat) (function : Val → GoVal) : Heap × Out Ref :=
-  let ego := h.length
-  match mapListsLoopGen (h ++ [Cell.obj [] 0]) function ego ((h ++ [Cell.obj [] 0]).fields a) with
-  | (h3, .panic p1) => (h3, .panic p1)
-  | (h3, .ok _) => (h3, .ok ⟨ego, 0⟩)
-
-/-- the loop of `MapStrings` at object_impl.go:502 -/
-def mapStringsLoopGen (h1 : Heap) (function : Val → GoVal) (ego : Nat) (l : List (Str × Val)) : Heap × Out Unit :=
-  match l with
-  | [] => (h1, .ok ())
-  | (key, item) :: rest =>
-    match L.sel h1 true .string item with
-    | none => mapStringsLoopGen h1 function ego rest
-    | some val =>
-      match parseVal h1 (function val) with
-      | (h2, .panic p) => (h2, .panic p)
-      | (h2, .ok v) => mapStringsLoopGen (h2.setFields ego (setKV (h2.fields ego) key v)) function ego rest
-
-/-- `(*object).MapStrings` (object_impl.go:500) -/
-def mapStringsGen (h : Heap) (a : Nat) (function : Val → GoVal) : Heap × Out Ref :=
-  let ego := h.length
-  match mapStringsLoopGen (h ++ [Cell.obj [] 0]) function ego ((h ++ [Cell.obj [] 0]).fields a) with
-  | (h3, .panic p1) => (h3, .panic p1)
-  | (h3, .ok _) => (h3, .ok ⟨ego, 0⟩)
-
-/-- the loop of `MapBools` at object_impl.go:513 -/
-def mapBoolsLoopGen (h1 : Heap) (function : Val → GoVal) (ego : Nat) (l : List (Str × Val)) : Heap × Out Unit :=
-  match l with
-  | [] => (h1, .ok ())
-  | (key, item) :: rest =>
-    match L.sel h1 true .bool item with
-    | none => mapBoolsLoopGen h1 function ego rest
-    | some val =>
-      match parseVal h1 (function val) with
-      | (h2, .panic p) => (h2, .panic p)
-      | (h2, .ok v) => mapBoolsLoopGen (h2.setFields ego (setKV (h2.fields ego) key v)) function ego rest
-
-/-- `(*object).MapBools` (object_impl.go:511) -/
-def mapBoolsGen (h : Heap) (a : Nat) (function : Val → GoVal) : Heap × Out Ref :=
-  let ego := h.length
-  match mapBoolsLoopGen (h ++ [Cell.obj [] 0]) function ego ((h ++ [Cell.obj [] 0]).fields a) with
-  | (h3, .panic p1) => (h3, .panic p1)
-  | (h3, .ok _) => (h3, .ok ⟨ego, 0⟩)
-
-/-- the loop of `MapInts` at object_impl.go:524 -/
-def mapIntsLoopGen (h1 : Heap) (function : Val → GoVal) (ego : Nat) (l : List (Str × Val)) : Heap × Out Unit :=
-  match l with
-  | [] => (h1, .ok ())
-  | (key, item) :: rest =>
-    match L.sel h1 true .int item with
-    | none => mapIntsLoopGen h1 function ego rest
-    | some val =>
-      match parseVal h1 (function val) with
-      | (h2, .panic p) => (h2, .panic p)
-      | (h2, .ok v) => mapIntsLoopGen (h2.setFields ego (setKV (h2.fields ego) key v)) function ego rest
-
-/-- `(*object).MapInts` (object_impl.go:522) -/
-def mapIntsGen (h : Heap) (a : Nat) (function : Val → GoVal) : Heap × Out Ref :=
-  let ego := h.length
-  match mapIntsLoopGen (h ++ [Cell.obj [] 0]) function ego ((h ++ [Cell.obj [] 0]).fields a) with
-  | (h3, .panic p1) => (h3, .panic p1)
-  | (h3, .ok _) => (h3, .ok ⟨ego, 0⟩)
-
-/-- the loop of `MapFloats` at object_impl.go:535 -/
-def mapFloatsLoopGen (h1 : Heap) (function : Val → GoVal) (ego : Nat) (l : List (Str × Val)) : Heap × Out Unit :=
-  match l with
-  | [] => (h1, .ok ())
-  | (key, item) :: rest =>
-    match L.sel h1 true .float item with
-    | none => mapFloatsLoopGen h1 function ego rest
-    | some val =>
-      match parseVal h1 (function val) with
-      | (h2, .panic p) => (h2, .panic p)
-      | (h2, .ok v) => mapFloatsLoopGen (h2.setFields ego (setKV (h2.fields ego) key v)) function ego rest
-
-/-- `(*object).MapFloats` (object_impl.go:533) -/
-def mapFloatsGen (h : Heap) (a : Nat) (function : Val → GoVal) : Heap × Out Ref :=
-  let ego := h.length
-  match mapFloatsLoopGen (h ++ [Cell.obj [] 0]) function ego ((h ++ [Cell.obj [] 0]).fields a) with
-  | (h3, .panic p1) => (h3, .panic p1)
-  | (h3, .ok _) => (h3, .ok ⟨ego, 0⟩)
-
-/-- `parseVal` (anytype.go:48) -/
-def parseValGen (h : Heap) (val : GoVal) : Heap × Out Val :=
-  match val with
-  | .obj v => (h, .ok (.obj v))
-  | .map .any _ =>
-    match O.newFrom h val with
-    | (h1, .panic p) => (h1, .panic p)
-    | (h1, .ok r) => (h1, .ok (.obj r))
-  | .map .object _ =>
-    match O.newFrom h val with
-    | (h2, .panic p1) => (h2, .panic p1)
-    | (h2, .ok r1) => (h2, .ok (.obj r1))
-  | .map .list _ =>
-    match O.newFrom h val with
-    | (h3, .panic p2) => (h3, .panic p2)
-    | (h3, .ok r2) => (h3, .ok (.obj r2))
-  | .map .string _ =>
-    match O.newFrom h val with
-    | (h4, .panic p3) => (h4, .panic p3)
-    | (h4, .ok r3) => (h4, .ok (.obj r3))
-  | .map .bool _ =>
-    match O.newFrom h val with
-    | (h5, .panic p4) => (h5, .panic p4)
-    | (h5, .ok r4) => (h5, .ok (.obj r4))
-  | .map .int _ =>
-    match O.newFrom h val with
-    | (h6, .panic p5) => (h6, .panic p5)
-    | (h6, .ok r5) => (h6, .ok (.obj r5))
-  | .map .float64 _ =>
-    match O.newFrom h val with
-    | (h7, .panic p6) => (h7, .panic p6)
-    | (h7, .ok r6) => (h7, .ok (.obj r6))
-  | .list v1 => (h, .ok (.list v1))
-  | .slice .any _ =>
-    match L.newFrom h val with
-    | (h8, .panic p7) => (h8, .panic p7)
-    | (h8, .ok r7) => (h8, .ok (.list r7))
-  | .slice .object _ =>
-    match L.newFrom h val with
-    | (h9, .panic p8) => (h9, .panic p8)
-    | (h9, .ok r8) => (h9, .ok (.list r8))
-  | .slice .list _ =>
-    match L.newFrom h val with
-    | (h10, .panic p9) => (h10, .panic p9)
-    | (h10, .ok r9) => (h10, .ok (.list r9))
-  | .slice .string _ =>
-    match L.newFrom h val with
-    | (h11, .panic p10) => (h11, .panic p10)
-    | (h11, .ok r10) => (h11, .ok (.list r10))
-  | .slice .bool _ =>
-    match L.newFrom h val with
-    | (h12, .panic p11) => (h12, .panic p11)
-    | (h12, .ok r11) => (h12, .ok (.list r11))
-  | .slice .int _ =>
-    match L.newFrom h val with
-    | (h13, .panic p12) => (h13, .panic p12)
-    | (h13, .ok r12) => (h13, .ok (.list r12))
-  | .slice .float64 _ =>
-    match L.newFrom h val with
-    | (h14, .panic p13) => (h14, .panic p13)
-    | (h14, .ok r13) => (h14, .ok (.list r13))
-  | .str v2 => (h, .ok (.str v2))
-  | .bool v3 => (h, .ok (.bool v3))
-  | .intw .int v4 => (h, .ok (.int (wrap64 v4)))
-  | .intw .i64 v5 => (h, .ok (.int (wrap64 v5)))
-  | .intw .i32 v6 => (h, .ok (.int (wrap64 v6)))
-  | .intw .i16 v7 => (h, .ok (.int (wrap64 v7)))
-  | .intw .i8 v8 => (h, .ok (.int (wrap64 v8)))
-  | .intw .uint v9 => (h, .ok (.int (wrap64 v9)))
-  | .intw .u64 v10 => (h, .ok (.int (wrap64 v10)))
-  | .intw .u32 v11 => (h, .ok (.int (wrap64 v11)))
-  | .intw .u16 v12 => (h, .ok (.int (wrap64 v12)))
-  | .intw .u8 v13 => (h, .ok (.int (wrap64 v13)))
-  | .f64 v14 => (h, .ok (.float v14))
-  | .f32 v15 => (h, .ok (.float (f32to64 v15)))
-  | .nil => (h, .ok .nil)
-  | _ => (h, .panic .unsupported)
-
-mutual
-/-- `native` (anytype.go:125) -/
-def nativeGen (value : JVal) : NVal :=
-  match value with
-  | .obj kvs => .dict (nativeFieldsGen kvs)
-  | .list xs => .slice (nativeListGen xs)
-  | .null => .nil
-  | .bool b => .bool b
-  | .int i => .int i
-  | .float f => .float f
-  | .str s => .str s
-/-- the children visited by `v.ForEach` at anytype.go:129 -/
-def nativeFieldsGen (l : List (Str × JVal)) : List (Str × NVal) :=
-  match l with
-  | [] => []
-  | (key, val) :: rest => (key, nativeGen val) :: nativeFieldsGen rest
-/-- the children visited by `v.ForEachValue` at anytype.go:135 -/
-def nativeListGen (l1 : List JVal) : List NVal :=
-  match l1 with
-  | [] => []
-  | h :: rest1 => (nativeGen h) :: nativeListGen rest1
-end
-
-end Anytype.Generated
+#check (vextract_translation_failed : "list_impl.go:42:9: unsupported allocation: &list{val: make([]field, 0, len(values))}")
